@@ -71,10 +71,10 @@ def cases(tier):
                                     yield {'k': 'hocur', 'd': d, 'm': m, 'ws': [list(w) for w in ws], 'rk': rk, 'rlist': rlist, 'rep': rep, 'mult': mult}
                     # integer-dtype data (distinct non-zero snapshots), and an integer-valued basis function (indicator) ahead of
                     # real-valued ones: the transformed tensor is real all the same
-                    for fam in ('intdtype', 'indicator', 'big'):
+                    for fam in ('intdtype', 'indicator', 'big', 'repeat'):
                         if fam == 'indicator' and p != 2:
                             continue          # (exact zeros of the tensor with >= 3 modes: see the recorded finding)
-                        for rk in (m, m + 2):
+                        for rk in ((m, m + 2) if fam != 'repeat' else (m - 1, m, m + 2)):
                             for mult in (2, 10):
                                 yield {'k': 'hocur', 'd': d, 'm': m, 'ws': [list(w) for w in ws], 'rk': rk, 'rlist': False, 'rep': 1, 'mult': mult, 'fam': fam}
     # data with exact zeros (every zero pattern of the d x m data matrix, fixed non-zero values): the first basis functions
@@ -198,7 +198,7 @@ def run_case(case, seed):
             x = np.array([[perm[j] if c == 0 else ((perm[j] * 2 + c) % (m + 1)) + 1 for j in range(m)] for c in range(d)], dtype=np.int64)
             x = x[:, np.argsort(perm)[::-1]]
         else:
-            x = data(rng, d, m, 'gauss')
+            x = data(rng, d, m, 'repeat' if case.get('fam') == 'repeat' else 'gauss')
             if case.get('fam') == 'big':
                 x = 6.0 * x                 # transformed entries up to ~1e4: rank decisions must be relative to the data's scale
         x0 = x.copy()
@@ -214,6 +214,10 @@ def run_case(case, seed):
         want = psi_oracle(x, basis)
         r.nontrivial = True
         complete = rk >= m and case['mult'] >= max(n[1:] + [1])
+        if case.get('fam') == 'repeat' and rk == m - 1:
+            # a repeated snapshot: the true ranks are at most m-1, so rank m-1 is still admissible when it covers them
+            tr = [np.linalg.matrix_rank(want.reshape(int(np.prod(want.shape[:k_])), -1), tol=1e-9 * np.abs(want).max()) for k_ in range(1, want.ndim)]
+            complete = rk >= max(tr) and case['mult'] >= max(n[1:] + [1])
         key = 'hocur' + (':complete-candidates' if complete else ':partial-candidates')
         if 'mask' in case:
             if not np.any(want):
